@@ -336,6 +336,11 @@ func createWriterWithCtx(obs kanzi.OutputBitStream, ctx map[string]any) (*Writer
 			return nil, err
 		}
 
+		if this.inputSize < 0 {
+			// A negative size means that the size is not available
+			this.inputSize = 0
+		}
+
 		nbBlocks = int((this.inputSize + int64(bSize-1)) / int64(bSize))
 	}
 
